@@ -40,6 +40,8 @@ def _user_calls(tr, b):
 
 
 def run(facts, tr, rep):
+    _n_cl = check_clone_variants(facts, tr, rep, "C17.CLONE-FAITHFUL", crate_names=["tower_resilience_fallback"])
+    rep.note("hand-written enum Clone arms examined: %d" % _n_cl)
     sbs = service_call_bodies(facts, crate=CRATE)
     sites = [(b, c) for sb in sbs for (b, c) in inner_calls(facts, sb)]
     rep.floor("C17.inner-call-sites", len(sites), 1)
